@@ -106,7 +106,7 @@ func c01(r *rng, tier string, o *out) {
 		exhaustive, perZoom, nrand = 10, 3000, 400000
 	}
 	emit := func(line string, nt bool, tag string) {
-		impl, viol := c01run(line)
+		impl, viol := runCase("C01", line)
 		idx := o.emit(line, impl, nt)
 		o.count(tag)
 		for _, v := range viol {
